@@ -486,3 +486,23 @@ def literal_chain_tasks(seed, count):
         strat = rng.choice([{"kind": "random", "p": 0.3}, {"kind": "relyield", "q": 0.3}, {"kind": "pct", "depth": 2, "est_steps": 500}])
         tasks.append(_mk(scn, rng, W=rng.choice([2, 3, 4]), sched=rng.choice(["default", "random"]), strat=strat, seed=seed * 65537 + i))
     return tasks
+
+
+def wide_fail_tasks(seed, count):
+    """Wide plans of independent calls most of which fail, small max_errors, several workers: the failure
+    bookkeeping (error count, first error, stop flag) is hit by several workers at the same moment."""
+    rng = random.Random(f"widefail-{seed}")
+    tasks = []
+    for i in range(count):
+        n = rng.randint(5, 9)
+        nodes = [{"id": k, "kind": "call"} for k in range(1, n + 1)]
+        edges = []
+        if rng.random() < 0.3:
+            edges.append([1, n, "pos"])
+        scn = S.norm({"nodes": nodes, "edges": edges, "output": {"list": [{"node": k} for k in range(1, n + 1)]}})
+        scn["fails"] = {str(k): {"n": 1, "exc": rng.choice(["Exception", "KeyError", "BaseExc"])} for k in range(1, n + 1) if rng.random() < 0.85}
+        strat = rng.choice([{"kind": "random", "p": 0.3}, {"kind": "relyield", "q": 0.4}, {"kind": "pct", "depth": 3, "est_steps": 800},
+                            {"kind": "pct", "depth": 2, "est_steps": 400}])
+        tasks.append(_mk(scn, rng, W=rng.choice([2, 3, 4]), sched=rng.choice(["default", "random"]), maxerr=rng.choice([1, 1, 2, 3]),
+                         strat=strat, seed=seed * 48611 + i))
+    return tasks
